@@ -300,6 +300,17 @@ def grow_alias(n):
     return t
 
 
+def push(L, x):
+    L.append(x)
+
+
+def push_all(n):
+    t = []
+    for i in range(n):
+        push(t, i)
+    return t
+
+
 def pick(i):
     return i
 
@@ -444,6 +455,12 @@ NEGATIVE = {
     (C, 'first_free'): {'params': {'n': 'int'}, 'raises': {}, 'returns': 'int', 'ensures': ['result == n + 2']},
     # the shape of a real hole found on 2026-10-03: t[i].append(v) inside a loop did not count as a change of t, so the loop
     # "preserved" whatever was true of the table before it; same through an alias of a row bound before the loop
+    # the shape of a fourth hole (2026-10-03): a loop body that changes a value only THROUGH A CALLEE (inlined helper, callee contract
+    # with `modifies`, print(file=..)) - invisible to the syntactic scan of the body - was not havoced at the loop head, so the code
+    # after the loop saw the pre-loop value.  Every loop now checks its frame: what the head did not havoc must come out unchanged
+    (C, 'push'): {'assumed': 'helper, inlined', 'inline_always': True},
+    (C, 'push_all'): {'params': {'n': 'int'}, 'requires': ['n >= 1'], 'raises': {}, 'returns': 'intlist',
+                      'loops': {0: {'inv': ['len(t) <= 1']}}, 'ensures': ['len(result) == 0']},
     (C, 'grow_rows'): {'params': {'n': 'int'}, 'requires': ['n >= 1'], 'raises': {}, 'returns': 'list2',
                        'loops': {0: {'inv': ['len(t) == n', 'len(t[0]) == 0']}}, 'ensures': ['len(result[0]) == 0']},
     (C, 'grow_alias'): {'params': {'n': 'int'}, 'requires': ['n >= 1'], 'raises': {}, 'returns': 'list2',
